@@ -15,7 +15,7 @@ NPT = {"i1": np.int8, "i2": np.int16, "i4": np.int32, "i8": np.int64, "u1": np.u
 CLAIM = dict(
     technique="runtime monitoring: sanitizer-instrumented execution of every reduction / accumulation entry point on arrays with unique labels; the set and order of source elements entering each result element is computed in Python from the definition (non-reduced coordinates match, increasing C order), the fold is replayed in the harness with the library's scalar functor in a plain loop (exact comparison: same bits up to the sign of zero), NumPy ufunc.reduce/accumulate and np.mean/var/std/trace/norm cross-check values and shapes",
     text="view::reduce_{add,multiply,maximum,minimum} (all 54 combinations of axis kind int/list/None x dtype absent/int64/float64 x initial absent/present x keepdims True/False/run-time for add on int32; pairwise-covering 9 for the others and for float64 data), view::reduce with bitwise_and/or/xor, subtract and the order-exposing op acc*31+x, reduce_logical_*, accumulate_* / cumsum / cumprod, sum, prod, amax, amin, mean, var, stddev, vector_norm, trace: result shape == NumPy's; every element == left fold (accumulator of the result type) of exactly the designated source elements in increasing index order; element type == requested dtype / source element type; wrappers == their definitions. Fold order is exposed by subtract and the tagging op. ASan/UBSan/libstdc++ assertions and the bounds hooks watch the same executions. Held-on-observed.",
-    note="Trusted: NumPy's reduce/accumulate on exactly representable data (small integers / dyadic rationals; +-1,+-2,+-0.5 for products); the harness' own odometer. Only dynamic ndarrays and run-time axis arguments (other kinds: C09). Only NumPy-valid arguments (invalid: C15); no zero-size diagonals / reductions. The result type of mean/var without dtype is taken from the library's documented promotion (integers -> float32), not from NumPy.",
+    note="Trusted: NumPy's reduce/accumulate on exactly representable data (small integers / dyadic rationals; +-1,+-2,+-0.5 for products); the harness' own odometer. Dynamic ndarrays; run-time axis arguments plus compile-time axes (meta::ct_v<k>, group 'ct': reduce_add/multiply/maximum/minimum, sum, prod, cumsum, cumprod) - other kinds: C09. Only NumPy-valid arguments (invalid: C15); no zero-size diagonals / reductions. The result type of mean/var without dtype is taken from the library's documented promotion (integers -> float32), not from NumPy.",
     ref="DESIGN.md 4/C08")
 TARGETS_QUICK = [(h, "asan") for h in HARNESS]
 
@@ -125,8 +125,10 @@ def axis_args(rng, kind, dim, exhaustive, unsorted=False, multi=True):
             out.append(a)
             out.append(a - dim)
         return out if exhaustive else [rng.choice(out)]
+    if kind == "S" and dim != 3:
+        return []
     subsets = []
-    for L in range(1, (dim if multi else 1) + 1):
+    for L in range(1, (min(dim, 2) if kind == "S" else (dim if multi else 1)) + 1):
         for c in itertools.combinations(range(dim), L):
             subsets.append(list(c))
     out = []
@@ -187,7 +189,7 @@ def gen_cases(rng, tier):
                     kds = (True, False) if o["keep"] == "R" else ((True,) if o["keep"] == "T" else (False,))
                     for kd in kds:
                         combos.append((s, ax, kd))
-            if o["axis"] == "C":
+            if o["axis"] in ("C", "S"):
                 budget = 30 if quick else 300
             if budget is not None and len(combos) > budget:
                 combos = rng.sample(combos, budget)
